@@ -18,7 +18,7 @@ SLICES = {
     'C01': 'Regenerated every run: Trajectory.to_positions per coordinate (GGen/FormulasC01); C01Gen: = x mod 1, in [0,1), congruent.',
     'C02': 'Regenerated every run: the whole decision of _compute_site_radius + provenance of the separations (GGen/FormulasC02); C02Gen: 2r <= separation for every returned radius, strictly disjoint when reduced, error branch iff separation < 0.51 and overlapping.',
     'C05': 'Regenerated every run: jump_diffusivity, rates, Jumps.split forwarding, to_graph edge energy and limits (GGen/FormulasC05); C05Gen, C05Lab (label counter = sums of matrix entries, totals, rate x time = counts).',
-    'C06': 'Regenerated every run: structure of mean_squared_displacement (zero-padding to 2N, window counts, S1 recursion) as flags and the combination S1 - 2 S2 (GGen/FormulasC06), tracer_diffusivity (FormulasC14); C06Gen: combination of the model terms = definition.',
+    'C06': 'Regenerated every run: structure of mean_squared_displacement (window counts, S1 recursion) as flags, the LENGTH of the zero-padded transform and the combination S1 - 2 S2 (GGen/FormulasC06), tracer_diffusivity (FormulasC14); C06Gen: the translated length leaves room for every kept lag, combination of the model terms = definition.',
     'C08': 'Regenerated every run: voxel_to_frac_coords, frac_coords_to_voxel, voxel_size, number of bin edges and the binning pipeline of trajectory_to_volume (GGen/FormulasC08); C08Gen: round trip, voxels per axis = floor(L/res), edge bounds.',
     'C09': 'Regenerated every run: get_free_energy formula and the position of nan_to_num (GGen/FormulasC09); C09Gen: antitone, non-negative, nan_to_num outermost.',
     'C10': 'Regenerated every run: move tables (GGen/Moves), node test, edge weights, peak scan, wrapped/fractional sites (GGen/FormulasC10); C10Gen, C10Peak: the scan as written returns the cheapest path over all peaks; wrapped sites inside the grid along their own axis.',
@@ -99,8 +99,11 @@ CHECKS.update({
     'C06': (
         'Theorems (GProofs/C06.lean): the code\'s S1 (insert/flip/cumsum recursion) - 2*S2 equals the definition (average over time origins of '
         '|r(k+m)-r(k)|^2) for every track and lag (msdAlgo_eq_def), zero at lag 0, v^T(MM^T)v = |vM|^2 for every cell. Tie: MSD, distances^2, '
-        'tracer diffusivity (d=1,2,3) vs exact rational values on multi-crossing walks in triclinic cells, rel 1e-9.',
-        'the zero-padded FFT autocorrelation is replaced by its mathematical meaning (direct sums) and validated per case to 1e-9; sqrt and float matrix products by tolerance',
+        'tracer diffusivity (d=1,2,3, one metrics object asked for all) vs exact rational values on multi-crossing walks in triclinic cells, rel 1e-9. FFT step (GProofs/C06Fft.lean): '
+        'ifft(|fft(x, n=pad)|^2) read as the cyclic autocorrelation of the padded signal equals the linear sums whenever n + k <= pad (cyclic_eq_linear; 2n-1 is the shortest such '
+        'length, 2n-2 fails), hence the code with ITS transform length computes the definition (msdCode_eq_def); the length is translated from the source on every run '
+        '(C06Gen.msdFftLength_ok, msd_source_is_definition).',
+        'trusted: numpy fft/ifft implement the DFT (convolution theorem), observed on every run against the exact cyclic sums on integer signals for 7 pad lengths each; sqrt and float matrix products by tolerance',
         '4/C06',
     ),
     'C08': (
@@ -145,7 +148,9 @@ CHECKS.update({
         'Theorems (GProofs/C11.lean): digitize(right=True) puts a distance in the least bin k with d <= k*res (overflow iff none); every (floating atom, atom) pair of a '
         'frame contributes exactly one (state, symbol, bin) cell (frameContribs_length/mem): the per-state distributions partition the pair counts; state codes injective; '
         'label lookup = label of the site itself; histogram bin convention; raw pair counts symmetric in the two species. Tie: every y array of radial_distribution '
-        'per (state, symbol) exactly vs brute force over certified minimum-image distances with alternating labels; between-species histogram x shell normalisation.',
+        'per (state, symbol) exactly vs brute force over certified minimum-image distances with alternating labels; between-species histogram x shell normalisation. '
+        'Names (GProofs/C11Names.lean): the dictionary _get_states builds maps every code that can occur to "@X" on a site / "P->N" in transit / "~>…" otherwise, no entry '
+        'overwritten (lookup_table), and filing by name conserves the counts (pooled_total); compared with rdf._get_states on every reachable code in every case.',
         'defect D8 (labels off by one) repaired by a fix commit; "~>" states (atom before its first / after its last site) are pooled: their naming is not fixed by the '
         'statement; distances within 1e-9 of a bin edge (not exactly on it) are skipped; pymatgen distances trusted (cross-checked in C12)',
         '4/C11',
@@ -176,9 +181,12 @@ CHECKS.update({
         'distances and sphere membership unchanged (also after re-wrapping the sites, away from ties); translating by k voxels rolls the voxel index by k mod n '
         '(voxel_translate); relabelling sites moves the counts with them; reordering the site list moves the assigned index with the site. Tie: metamorphic pairs on the '
         'implementation: base system vs 3 rotations, 2 translations (dyadic / voxel multiples), atom and site permutations, on states, events, jumps, matrix, diffusivity, '
-        'collective count, per-state RDFs, metrics, density volume, free energy, path cost.',
-        'the end-to-end invariance of each analysis is checked metamorphically on the implementation; the theorems cover the mechanisms (metric, translation, roll, relabelling), not '
-        'each analysis pipeline separately; non-reduced strongly skewed cells are excluded (D16 of C02); NoTie',
+        'collective count, per-state RDFs, metrics, density volume, free energy, path cost. End to end (GProofs/C07Pipe.lean): the per-atom chain positions -> states -> '
+        'events -> jumps as ONE function (GModel.Pipeline.run) is unchanged by a rotation of the cell, a common translation, whole-cell shifts of single positions (NoTie), and is '
+        'renamed consistently by a reordering of the site list (non-overlapping spheres) for EVERY minimal residence (run_rot, run_translate, run_shift_atoms, '
+        'jumpsOfHistory_relabel, run_perm_sites); the implementation is compared with Pipeline.run in every representation of every system.',
+        'site assignment / events / jumps are proved invariant end to end; for the other analyses (RDF, volume, free energy, paths, metrics) the theorems cover the mechanisms '
+        '(metric, translation, roll, relabelling) and the invariance of the pipeline is checked metamorphically on the implementation; non-reduced strongly skewed cells are excluded (D16 of C02); NoTie',
         '4/C07',
     ),
     'C14': (
